@@ -253,6 +253,7 @@ func matchIDs(da *depend.DependAtom, ctxUse atom.UseFlagMap, pkgs []*pkgRec, byN
 
 type counter struct {
 	atoms, groups, compoundAlt, blockers, conds, depth int
+	byText map[string]map[string]bool // atom text -> the distinct match lists seen for it
 }
 
 func depTerm(d depend.PackageDependency, ctxUse atom.UseFlagMap, pkgs []*pkgRec, cnt *counter, depth int, inGroup bool) string {
@@ -267,6 +268,12 @@ func depTerm(d depend.PackageDependency, ctxUse atom.UseFlagMap, pkgs []*pkgRec,
 		}
 		pn := x.PackageName()
 		ids := matchIDs(x, ctxUse, pkgs, func(p *pkgRec) bool { return p.pn == pn })
+		if cnt.byText != nil {
+			if cnt.byText[x.String()] == nil {
+				cnt.byText[x.String()] = map[string]bool{}
+			}
+			cnt.byText[x.String()][strings.Join(ids, ",")] = true
+		}
 		return q.App("DAtom", q.App("MkAtom", q.Hx(pn), q.Bool(x.Blocker), q.List(ids)))
 	case *depend.ConditionalPackageDependency:
 		var k string
@@ -469,7 +476,7 @@ func Run(in Input) (c *common.Case) {
 			}
 		}
 	}
-	cnt := &counter{}
+	cnt := &counter{byText: map[string]map[string]bool{}}
 	badFiles := 0
 	pkgTerms := make([]string, len(pkgs))
 	for i, p := range pkgs {
@@ -594,6 +601,12 @@ func Run(in Input) (c *common.Case) {
 	}
 	if cnt.blockers > 0 {
 		classes = append(classes, "has-blockers")
+	}
+	for _, m := range cnt.byText {
+		if len(m) > 1 { // the installed matches of one atom text depend on which package asks
+			classes = append(classes, "same-atom-text-different-matches")
+			break
+		}
 	}
 	if cnt.conds > 0 {
 		classes = append(classes, "has-use-conditionals")
